@@ -17,6 +17,9 @@ pub mod support;
 pub mod utils;
 pub mod value;
 
+#[cfg(feature = "verif")]
+pub mod verif;
+
 use fnv::FnvBuildHasher;
 use hashbrown::HashSet;
 use object::Instance;
